@@ -683,7 +683,7 @@ class NMRTensor(NDArrayOperatorsMixin):
                     warnings.warn(f"Operating on tensors with different ordering conventions: "
                                 f"{self.order} and {other.order}. Using {self.order}.")
                 other_data = other.data
-            elif isinstance(other, (int, float)):
+            elif isinstance(other, (int, float, np.integer, np.floating)):
                 other_data = other
             elif isinstance(other, np.ndarray):
                 # Special handling for matmul with vectors
